@@ -67,7 +67,7 @@ def gen(prop, stream, tier, avoid):
     for _ in range(nobj):
         kind = rng.weighted([("curve", 5), ("surface", 4), ("volume", 1.5)])
         nd_ = shapes.DIRS[kind]
-        degs = [rng.pick([1, 2, 2, 3, 3, 3, 4]) if kind == "curve" else rng.pick([1, 2, 2, 3, 3] if kind == "surface" else [1, 2, 2])
+        degs = [rng.pick([1, 2, 2, 3, 3, 3, 4]) if kind == "curve" else rng.pick([1, 2, 2, 3, 3] if kind == "surface" else [1, 2, 2, 3])
                 for _ in range(nd_)]
         spec = shapes.gen_shape(rng, kind=kind, max_size=8 if kind == "curve" else (6 if kind == "surface" else 4), degrees=degs)
         spec["delta"] = rng.pick([0.5, 0.25, 0.2]) if kind != "curve" else rng.pick([0.25, 0.125, 0.1])
